@@ -104,13 +104,18 @@ class OperandToken(CompositeBaseToken):
         return self.value[0] if self.value[0].__class__ == ControlConstructionCompositeBaseToken else None
 
 
+class PercentChainToken(RecursiveCompositeBaseToken):
+    # one or more postfix percent signs: 5%%
+    _TOKEN_SETS = [[PercentOperatorToken, CLS], [PercentOperatorToken]]
+
+
 class OneLeftOperandExpressionToken(RecursiveCompositeBaseToken):
     # `operand %`: percent is a postfix operator (it used to be accepted as a binary one as well: =2%3, =2%3%)
-    _TOKEN_SETS = [[OperandToken, PercentOperatorToken]]
+    _TOKEN_SETS = [[OperandToken, PercentChainToken]]
 
     @property
     def operator(self) -> PercentToken:
-        return self.value[1].operator
+        return self.value[1].value[0].operator
 
     @property
     def left_operand(self):
@@ -130,6 +135,8 @@ class ExpressionToken(RecursiveCompositeBaseToken):
                    [OneOperandArithmeticOperatorToken, CLS],
                    [OneLeftOperandExpressionToken, OperatorToken, CLS],
                    [OneLeftOperandExpressionToken],
+                   [BracketStartToken, CLS, BracketFinishToken, PercentChainToken, OperatorToken, CLS],
+                   [BracketStartToken, CLS, BracketFinishToken, PercentChainToken],
                    [BracketStartToken, CLS, BracketFinishToken, OperatorToken, CLS],
                    [BracketStartToken, CLS, BracketFinishToken], [OperandToken]]
 
